@@ -238,6 +238,7 @@ class StmtMixin:
         return  # continues after the loop, skipping orelse
       g1 = dict(ghost)
       g1[idx_name] = V(S.INT, i + 1)
+      self._check_owned(st, mods)
       self._check_inv(lc, 'inv.preserve', ordinal, g1)
       raise PathEnd()
     # 3. exit: all elements consumed
@@ -245,6 +246,30 @@ class StmtMixin:
     self._assume_inv(lc, gi)
     self._drop(ghost, idx_name)
     self.exec_block(st.orelse)
+
+  def _check_owned(self, st, mods):
+    """Ownership invariant of loop-carried containers that the loop mutates in place.
+
+    At the loop head such a variable is assumed to be owned by the function; an
+    iteration must not leave it aliasing immutable/shared data, because a later
+    iteration's in-place mutation would then corrupt that data.
+    """
+    mutated = set()
+    for sub in ast.walk(st):
+      if isinstance(sub, ast.Call) and isinstance(sub.func, ast.Attribute) and isinstance(
+          sub.func.value, ast.Name) and sub.func.attr in _MUTATORS:
+        mutated.add(sub.func.value.id)
+      if isinstance(sub, (ast.Assign, ast.AugAssign, ast.Delete)):
+        tg = sub.targets if not isinstance(sub, ast.AugAssign) else [sub.target]
+        for t in tg:
+          if isinstance(t, ast.Subscript) and isinstance(t.value, ast.Name):
+            mutated.add(t.value.id)
+    for n in sorted(mods & mutated):
+      v = self.env.get(n)
+      if isinstance(v, V) and v.origin is not None and v.origin[0] == 'immutable':
+        self.oblige(z3.BoolVal(False), 'frame',
+                    'loop-carried %s is mutated in place by the loop but aliases the %s of an immutable %s '
+                    'at the end of an iteration' % (n, v.origin[2], v.origin[1]))
 
   def _drop(self, ghost, idx_name):
     # ghost names stay visible for later invariants/postconditions (read-only)
@@ -266,6 +291,7 @@ class StmtMixin:
         pass
       except Break_:
         return
+      self._check_owned(st, mods)
       self._check_inv(lc, 'inv.preserve', ordinal, {})
       raise PathEnd()
     self.assume(z3.Not(c))
